@@ -28,6 +28,7 @@ type World struct {
 	lemmaList []*Lemma
 	invs      map[string]*InvDef
 	chanInvs  map[string]*InvDef // key: pkgpath.Struct.field
+	guards    map[string]*GuardDef // key: pkgpath.Struct.field
 	claimed   map[string]bool    // function keys of the claim being checked
 	consts    map[string]string
 	ghosts    map[string]*GhostDecl
@@ -143,6 +144,12 @@ func (w *World) addFile(cf *ContractFile) {
 			dup("spec function/invariant", i.Name, cf.Path)
 		}
 		w.invs[i.Name] = i
+	}
+	for _, g := range cf.Guards {
+		if w.guards == nil {
+			w.guards = map[string]*GuardDef{}
+		}
+		w.guards[cf.Pkg+"."+g.Struct+"."+g.Field] = g
 	}
 	for _, ci := range cf.ChanInvs {
 		if w.chanInvs == nil {
